@@ -67,7 +67,7 @@ def main():
                 env2 = dict(os.environ, FORSYS_REPO=wt, VERIF_SEED=str(seed))
                 rc, o = sh([os.path.join(ROOT, "check"), pid, "--tier", "quick"], cwd=ROOT, env=env2, timeout=3000)
                 viol = [l for l in o.splitlines() if l.startswith("VIOLATION")]
-                res.append({"seed": seed, "exit": rc, "violations": len(viol), "no_failing_input": any("no-failing-input-found" in l for l in viol)})
+                res.append({"seed": seed, "exit": rc, "violations": len(viol), "no_failing_input": bool(viol) and all("no-failing-input-found" in l for l in viol)})
                 if rc == 1 and pid != a.pid:
                     break
             caught[pid] = res
